@@ -120,6 +120,37 @@ func ruleR181(c *Ctx) {
 								c.OK(key, call.Pos(), "%s is a parameter that all %d call sites fill with a constant", pos, sites)
 								return true
 							}
+							// a private helper whose call sites all validate what they pass
+							if sites > 0 && !fd.Name.IsExported() {
+								allValidated := true
+								for _, f := range pkg.Syntax {
+									ast.Inspect(f, func(y ast.Node) bool {
+										cc, ok := y.(*ast.CallExpr)
+										if !ok || fobj == nil || Callee(info, cc) != fobj.Origin() || pi >= len(cc.Args) {
+											return true
+										}
+										if info.Types[cc.Args[pi]].Value != nil {
+											return true
+										}
+										v := false
+										for _, gd := range c.GuardsDeep(cc) {
+											if vc, ok := ast.Unparen(gd.Cond).(*ast.CallExpr); ok && gd.Val && c.isNameValidatorCall(info, vc) {
+												if nodeStr(c.Fset, vc.Args[0]) == nodeStr(c.Fset, cc.Args[pi]) {
+													v = true
+												}
+											}
+										}
+										if !v {
+											allValidated = false
+										}
+										return true
+									})
+								}
+								if allValidated {
+									c.OK(key, call.Pos(), "%s is a parameter of a private helper; every call site passes a constant or a name it has checked with the XML name validator", pos)
+									return true
+								}
+							}
 						}
 					}
 				}
@@ -165,6 +196,45 @@ func ruleR181(c *Ctx) {
 		for _, gd := range c.GuardsDeep(as) {
 			if vc, isCall := ast.Unparen(gd.Cond).(*ast.CallExpr); isCall && !gd.Val && c.isNameValidatorCall(info, vc) {
 				ok = true
+			}
+			// a predicate of the package that is false whenever the validator is: every return of it has the validator's
+			// answer as a conjunct (directly or through a local that is assigned once)
+			if hc, isCall := ast.Unparen(gd.Cond).(*ast.CallExpr); isCall && !gd.Val && !ok {
+				if cal := Callee(info, hc); cal != nil && cal.Pkg() == xa.ep.Types {
+					if hd := findFuncDecl(xa.ep, cal); hd != nil && hd.Body != nil {
+						all, nRet := true, 0
+						inspectNoLit(hd.Body, func(y ast.Node) bool {
+							r, isRet := y.(*ast.ReturnStmt)
+							if !isRet || len(r.Results) != 1 {
+								return true
+							}
+							nRet++
+							var cs []ast.Expr
+							conjuncts(r.Results[0], &cs)
+							has := false
+							for _, cj := range cs {
+								e := ast.Unparen(cj)
+								if id, isID := e.(*ast.Ident); isID {
+									if v, isVar := info.ObjectOf(id).(*types.Var); isVar {
+										if rhs, has2 := singleDefExpr[v]; has2 {
+											e = ast.Unparen(rhs)
+										}
+									}
+								}
+								if vc, isCall := e.(*ast.CallExpr); isCall && c.isNameValidatorCall(info, vc) {
+									has = true
+								}
+							}
+							if !has {
+								all = false
+							}
+							return true
+						})
+						if all && nRet > 0 {
+							ok = true
+						}
+					}
+				}
 			}
 		}
 		return true
@@ -625,6 +695,81 @@ func ruleR184(c *Ctx) {
 			}
 		}
 	}
+	// lazy holders: a struct of the package that keeps an exporter in a field, with one method that creates and opens it
+	// on first use (if h.f == nil { h.f = …; h.f.open(…) }) and one that closes it if it was created
+	// (if h.f != nil { h.f.close() }). The two methods are balanced as a pair; each has no net effect of its own that a
+	// caller could count. Callers have to call the closer on every success path behind a use of the opener.
+	fieldNilTest := func(cond ast.Expr, recv types.Object) (string, bool, bool) {
+		be, ok := ast.Unparen(cond).(*ast.BinaryExpr)
+		if !ok || (be.Op != token.EQL && be.Op != token.NEQ) {
+			return "", false, false
+		}
+		if y, ok := ast.Unparen(be.Y).(*ast.Ident); !ok || y.Name != "nil" {
+			return "", false, false
+		}
+		sel, ok := ast.Unparen(be.X).(*ast.SelectorExpr)
+		if !ok {
+			return "", false, false
+		}
+		if id, ok := ast.Unparen(sel.X).(*ast.Ident); !ok || info.ObjectOf(id) != recv {
+			return "", false, false
+		}
+		return sel.Sel.Name, be.Op == token.EQL, true
+	}
+	type holder struct{ opener, closer *types.Func }
+	holders := map[string]*holder{}
+	for obj, fi := range fns {
+		fd := fi.fd
+		if fd.Recv == nil || len(fd.Recv.List[0].Names) != 1 {
+			continue
+		}
+		recv := info.Defs[fd.Recv.List[0].Names[0]]
+		tname := recvTypeName(fd.Recv.List[0].Type)
+		for _, st := range fd.Body.List {
+			ifs, ok := st.(*ast.IfStmt)
+			if !ok || ifs.Else != nil {
+				continue
+			}
+			field, isNil, ok := fieldNilTest(ifs.Cond, recv)
+			if !ok {
+				continue
+			}
+			opens := containsNode(ifs.Body, func(y ast.Node) bool {
+				cc, ok := y.(*ast.CallExpr)
+				if !ok {
+					return false
+				}
+				sel, ok := ast.Unparen(cc.Fun).(*ast.SelectorExpr)
+				return ok && (sel.Sel.Name == "open" || sel.Sel.Name == "Open") && strings.HasSuffix(nodeStr(c.Fset, sel.X), "."+field)
+			})
+			closes := containsNode(ifs.Body, func(y ast.Node) bool {
+				cc, ok := y.(*ast.CallExpr)
+				if !ok {
+					return false
+				}
+				sel, ok := ast.Unparen(cc.Fun).(*ast.SelectorExpr)
+				return ok && (sel.Sel.Name == "close" || sel.Sel.Name == "Close") && strings.HasSuffix(nodeStr(c.Fset, sel.X), "."+field)
+			})
+			if holders[tname] == nil {
+				holders[tname] = &holder{}
+			}
+			if isNil && opens {
+				holders[tname].opener = obj
+			}
+			if !isNil && closes && len(fd.Body.List) == 1 {
+				holders[tname].closer = obj
+			}
+		}
+	}
+	holderMethod := map[*types.Func]string{}
+	for tname, h := range holders {
+		if h.opener != nil && h.closer != nil {
+			holderMethod[h.opener] = "opener of " + tname
+			holderMethod[h.closer] = "closer of " + tname
+			fns[h.opener].want = 0
+			fns[h.closer].want = 0
+		}
+	}
 	usesWriter := func(fd *ast.FuncDecl) bool {
 		return containsNodeDeep(fd.Body, func(x ast.Node) bool {
 			call, ok := x.(*ast.CallExpr)
@@ -680,6 +825,62 @@ func ruleR184(c *Ctx) {
 		}
 		n++
 		key := declName(xa.ep, fd) + "#element-balance"
+		if role, ok := holderMethod[f]; ok {
+			c.OK(key, fd.Pos(), "%s: opens lazily on first use / closes only what was opened; balanced as a pair, the callers are checked for calling the closer", role)
+			continue
+		}
+		// callers of a lazy holder: behind a use of the opener every success exit passes the closer
+		{
+			var problem string
+			g := c.CFG(fd)
+			ast.Inspect(fd.Body, func(x ast.Node) bool {
+				call, ok := x.(*ast.CallExpr)
+				if !ok || problem != "" {
+					return true
+				}
+				cal := Callee(info, call)
+				if cal == nil || !strings.HasPrefix(holderMethod[cal], "opener") {
+					return true
+				}
+				sel, ok := ast.Unparen(call.Fun).(*ast.SelectorExpr)
+				if !ok {
+					return true
+				}
+				hv := nodeStr(c.Fset, sel.X)
+				isCloser := func(y ast.Node) bool {
+					return containsNodeDeep(y, func(z ast.Node) bool {
+						cc, ok := z.(*ast.CallExpr)
+						if !ok {
+							return false
+						}
+						ccal := Callee(info, cc)
+						if ccal == nil || !strings.HasPrefix(holderMethod[ccal], "closer") {
+							return false
+						}
+						cs, ok := ast.Unparen(cc.Fun).(*ast.SelectorExpr)
+						return ok && nodeStr(c.Fset, cs.X) == hv
+					})
+				}
+				isSuccess := func(y ast.Node) bool {
+					r, ok := y.(*ast.ReturnStmt)
+					if !ok || len(r.Results) == 0 {
+						return ok
+					}
+					id, ok := ast.Unparen(r.Results[len(r.Results)-1]).(*ast.Ident)
+					return ok && id.Name == "nil"
+				}
+				if g != nil && c.EnclosingFunc(call) == ast.Node(fd) {
+					if found, _ := g.PathAvoiding(call, isSuccess, isCloser); found {
+						problem = fmt.Sprintf("the element that %s opens lazily (line %d) is not closed on a path to a successful return", hv, c.Fset.Position(call.Pos()).Line)
+					}
+				}
+				return true
+			})
+			if problem != "" {
+				c.Violation(key, fd.Pos(), "the function does not open and close elements in balance (%s): the exported markup is not well formed", problem)
+				continue
+			}
+		}
 		w := &depthWalker{c: c, info: info, delta: delta}
 		// deferred Close applies at every exit
 		deferred := 0
@@ -974,8 +1175,38 @@ func ruleR187(c *Ctx) {
 			k := 0
 			ast.Inspect(fd.Body, func(x ast.Node) bool {
 				call, ok := x.(*ast.CallExpr)
-				if !ok || !isCallTo(info, call, xa.attr) {
+				if !ok {
 					return true
+				}
+				// a method of the exporter that writes the attribute (addAttribute): the decision is the one made at its
+				// call site in Add
+				if !isCallTo(info, call, xa.attr) {
+					cal := Callee(info, call)
+					if cal == nil || cal.Pkg() != xa.ep.Types {
+						return true
+					}
+					hd := findFuncDecl(xa.ep, cal)
+					if hd == nil || hd.Body == nil || hd.Recv == nil || hd == fd || recvTypeName(hd.Recv.List[0].Type) != recvTypeName(fd.Recv.List[0].Type) {
+						return true
+					}
+					writesAttr := false
+					ast.Inspect(hd.Body, func(y ast.Node) bool {
+						hc, ok := y.(*ast.CallExpr)
+						if !ok || !isCallTo(info, hc, xa.attr) {
+							return true
+						}
+						// not an attribute of a child opened in the same expression
+						if sel, ok := ast.Unparen(hc.Fun).(*ast.SelectorExpr); ok {
+							if rc, ok := ast.Unparen(sel.X).(*ast.CallExpr); ok && (isCallTo(info, rc, xa.open) || isCallTo(info, rc, xa.attr)) {
+								return true
+							}
+						}
+						writesAttr = true
+						return true
+					})
+					if !writesAttr {
+						return true
+					}
 				}
 				// an attribute of an element that was opened in the same expression (w.Open("entry").Attr("key", key), possibly
 				// after further Attr calls) belongs to that child, not to the element of the map
